@@ -5,7 +5,7 @@ LEVEL = "model_checking"
 EMPTY_COVERAGE = dict(states=0, transitions=0, traces_validated_against_impl=0, samples=[])
 MACHINES = ["xof", "xofa", "xof:fixed", "xofa:fixed", "xof:custom", "xofa:custom", "hash", "hasha", "prf", "prf:fixed",
             "kmac", "kmaca", "kdf", "kdfa", "hmac", "hmaca", "hkdf", "hkdfa",
-            "enc128", "enc128a", "enc80pq", "dec128", "dec128a", "dec80pq", "enc128:null", "enc128a:null", "enc80pq:null", "dec80pq:null", "longrun", "longrun-a"]
+            "enc128", "enc128a", "enc80pq", "dec128", "dec128a", "dec80pq", "enc128:null", "enc128a:null", "enc80pq:null", "dec80pq:null", "longrun", "longrun-a", "cppcopy"]
 
 
 def run(ctx):
@@ -14,7 +14,7 @@ def run(ctx):
     for be in backends:
         lib = build.build_lib(be)
         ctx.configs.append(lib["desc"])
-        exe = build.build_prog("c07", ["harness/c07.c", "harness/sysrand.c", "ref/ref.c"], lib, opt="-O2")
+        exe = build.build_prog("c07", ["harness/c07.c", "harness/cpp_shim.cpp", "harness/sysrand.c", "ref/ref.c"], lib, opt="-O2")
         for m in MACHINES:
             jobs.append((exe, [m, 1 if ctx.thorough else 0], be))
     res = common.parallel(lambda j: common.run_harness(ctx, j[0], j[1], label=j[2]), jobs)
